@@ -52,6 +52,40 @@ CHECKS["C12"] = dict(
     design="5 C12", technique="TLA+ spec model-checked with TLC; every model state replayed into the real Broker",
     note=BROKER_NOTE)
 
+ENV_NOTE = ("Trusted base: TLC 1.8, the TLA+ value parser, the replay harness (recording observer Feature + run-time wrappers "
+            "around Broker.rebalance and numpy.random.choice); time lattice of events around grid points / latency bounds / "
+            "midnight; bounded numbers of grid points, events and calls; synchronous Transmitter, single thread.")
+CHECKS["C04"] = dict(
+    text="TLC enumerates configurations (every subset of candidate events on a lattice around grid points, the latency bound and "
+         "midnight x latency x fold x full/markov/warm-up reset) and every sequence of reset/step calls up to a bound on Env.tla, "
+         "whose reset/step/notify follow the code's own steps; the declarative invariants ExactlyOnce, OnTime, InOrder, "
+         "ClockIsLatest, LatencyRule are checked in every state. Every maximal call history is replayed into a real "
+         "Transmitter+TradingEnv with a recording observer and the delivered notifications (event, order, clock, side of the "
+         "execution) and env.now() are compared call by call.",
+    design="5 C04", technique="TLA+ spec (Env.tla/TransmitterOps.tla) model-checked with TLC; every maximal behaviour replayed "
+                              "into the real TradingEnv", note=ENV_NOTE)
+CHECKS["C08"] = dict(
+    text="Env.tla with bar-shaped streams plus extra quotes at and 1 s beyond the latency bound, delays 0..2, Box and Discrete "
+         "spaces: TLC checks FifoDelay, ExecPricedAtLatencyCut, LatencyRule, StampIsLatest, NullActionExecutes; every behaviour "
+         "is replayed into the real TradingEnv with pairwise distinct actions, comparing the executed allocation, the quotes the "
+         "execution saw (snapshot at Broker.rebalance), trade prices and the side of the execution each event was applied on.",
+    design="5 C08", technique="TLA+ spec model-checked with TLC; every behaviour replayed into the real TradingEnv", note=ENV_NOTE)
+CHECKS["C15"] = dict(
+    text="Env.tla with sparse event-bearing grids, overlapping / degenerate folds, episode lengths 1..fold size+1 and every valid "
+         "start chosen nondeterministically: TLC checks InFold, Consecutive, ExactLength, StartSetExact and the action property "
+         "DoneIsAbsorbing; replays force the chosen start through a wrapper of numpy.random.choice that also records the candidate "
+         "set. Walk-forward splitting is a pure function: TLC tabulates TransmitterOps!WalkForward for all N<=10 (14 thorough) and "
+         "checks disjointness, adjacency and sizes; the table is compared exhaustively with Transmitter.walk_forward.",
+    design="5 C15", technique="TLA+ spec model-checked with TLC; behaviours replayed into the real TradingEnv; walk-forward table "
+                              "compared exhaustively", note=ENV_NOTE)
+CHECKS["C17"] = dict(
+    text="Env.tla with one malformed action of each class (wrong shape, below / above bounds, NaN, bad index) injected at any "
+         "step, delays 0..2, four spaces (Box weights, Box with cash entry, Box in lots, Discrete): TLC checks "
+         "MalformedNeverExecutes, RejectedByDueStep, MalformedRejected, FifoDelay; replays map the class to concrete arrays / "
+         "indices and compare outcome class, absence of any execution / track-record entry / holdings change, and for in-space "
+         "actions the executed allocation.",
+    design="5 C17", technique="TLA+ spec model-checked with TLC; behaviours replayed into the real TradingEnv", note=ENV_NOTE)
+
 PENDING = "check not built yet in this round (the TLA+ model for it is planned in DESIGN.md section 5); listed here until its check is registered"
 
 
